@@ -411,7 +411,7 @@ class Session:
         wfault = step.get("write_fault")
         files_before = dict(self.seams.fs.files)
         out1, res1, fired1 = self.one_call(name, live, script, wfault)
-        if name == "vertices" and not self.seams.plots_imported:
+        if name in ("vertices", "plot_assumptions", "plot_guarantees") and not self.seams.plots_imported:
             # calling the plotting helper imports pacti.utils.plots (the caller's own import); the packrat flip
             # that comes with matplotlib is the one legitimate module-state change, as for the explicit event
             self.seams.plots_imported = True
